@@ -175,11 +175,6 @@ static int guards_ok(int n)
 static float f_of_bits(uint32_t b) { float f; memcpy(&f, &b, 4); return f; }
 static uint32_t bits_of_f(float f) { uint32_t b; memcpy(&b, &f, 4); return b; }
 
-/* the two scalar conversions of pixman-utils.c (not static, declared in pixman-private.h): called directly so that
- * every width 1..16 is tied to the exact binary32 model, not only the widths that occur in a pixel format */
-uint16_t pixman_float_to_unorm (float f, int n_bits);
-float pixman_unorm_to_float (uint16_t u, int n_bits);
-
 /* one request; returns 0 if the line is not understood */
 static int exec_line(char *line, FILE *fr)
 {
@@ -188,21 +183,6 @@ static int exec_line(char *line, FILE *fr)
     int nt = split(line, tok, 16);
     if (nt < 7) return 0;
     const char *op = tok[0];
-    if (!strcmp(op, "U")) {     /* U - s <n> 0 <count> <4 hex digits per value>: unorm_to_float (u, n) and back */
-        int n = atoi(tok[3]), cnt = atoi(tok[5]); const char *h = tok[6];
-        if (n < 1 || n > 16 || cnt < 1 || (int) strlen(h) != 4 * cnt) return 0;
-        for (int i = 0; i < cnt; i++) {
-            unsigned u = 0; for (int k = 0; k < 4; k++) { int d = hexval(h[4 * i + k]); if (d < 0) return 0; u = u * 16 + (unsigned) d; }
-            float f = pixman_unorm_to_float((uint16_t) u, n); unsigned back = pixman_float_to_unorm(f, n);
-            fprintf(fr, "%s%08x:%x", i ? " " : "", bits_of_f(f), back);
-            unsigned m = (1u << n) - 1, um = u & m; double q = (double) um / m; char detail[200];
-            if ((um == 0 && bits_of_f(f) != 0) || (um == m && bits_of_f(f) != 0x3f800000u) || fabs((double) f - q) > q * 1.2e-7) {
-                snprintf(detail, sizeof detail, "n=%d u=%u float=%.9g", n, u, (double) f); oracle("unorm-to-float-value", "-", detail); }
-            if (n <= 11 && back != um) { snprintf(detail, sizeof detail, "n=%d u=%u -> %.9g -> %u", n, u, (double) f, back); oracle("float-roundtrip", "-", detail); }
-        }
-        fprintf(fr, "\n");
-        return 1;
-    }
     int isF = !strcmp(op, "F"), isS = !strcmp(op, "S"), isFW = !strcmp(op, "FW"), isSW = !strcmp(op, "SW");
     int isYW = !strcmp(op, "YW"), isYX = !strcmp(op, "YX"), isY = !strcmp(op, "Y") || isYW || isYX;
     if (!(isF || isS || isFW || isSW || isY)) return 0;
@@ -624,17 +604,6 @@ static void gen_yuv(int fi, int tier)
     }
 }
 
-/* unorm_to_float / float_to_unorm for every width 1..16 and every value (131070 values) */
-static void gen_scalar(void)
-{
-    if (!next_unit()) return;
-    static char line[600]; static char hx[4 * 64 + 1];
-    for (int n = 1; n <= 16; n++) for (unsigned u = 0; u < (1u << n); ) {
-        int cnt = 0; while (cnt < 64 && u < (1u << n)) { sprintf(hx + 4 * cnt, "%04x", u); stat_add(4, 63, (uint32_t)(n << 16) | u, 0xffffffffu); cnt++; u++; }
-        snprintf(line, sizeof line, "U - s %d 0 %d %s", n, cnt, hx); emit(line);
-    }
-}
-
 int main(int argc, char **argv)
 {
     if (argc >= 2 && !strcmp(argv[1], "list")) {
@@ -681,7 +650,6 @@ int main(int argc, char **argv)
         g_seed = strtoull(argv[2], 0, 10); int tier = atoi(argv[3]), general = atoi(argv[4]); g_part = atoi(argv[5]); g_nparts = atoi(argv[6]);
         g_ops = fopen(argv[7], "w"); g_impl = fopen(argv[8], "w"); g_or = fopen(argv[9], "w"); if (!g_ops || !g_impl || !g_or) return 2;
         g_vals = malloc(sizeof(uint32_t) * 400000); g_set = calloc((size_t) 1 << HBITS, sizeof(uint64_t));
-        if (!general) gen_scalar();
         for (int fi = 0; fi < NFORMATS; fi++) {
             pixman_format_code_t c = gen_formats[fi].code;
             if (!pixman_format_supported_source(c)) continue;
